@@ -538,10 +538,12 @@ class FakeClientFactory(object):
 
   def reinjectDatapoints(self):
     metrics = list(self.queue)
+    # empty the buffer first: while there is still no destination the points
+    # come straight back into it and must not be wiped afterwards
+    self.queue.clear()
     log.clients("Re-injecting %d metrics from %s" % (len(metrics), self))
     for metric, datapoint in metrics:
         state.events.metricGenerated(metric, datapoint)
-    self.queue.clear()
 
 
 class CarbonClientManager(Service):
